@@ -399,7 +399,7 @@ func (i *c12Inst) Apply(op int) (string, []rep.Violation) {
 
 func (i *c12Inst) Key() string {
 	b, _ := json.Marshal(i.s)
-	return i.attrs() + "|" + string(b) + fmt.Sprintf("|r%d", i.reop)
+	return i.attrs() + "|" + string(b) + fmt.Sprintf("|r%d", i.reop) + "|" + rep.Hash(i.doc.VerifShallowState())
 }
 
 // Deep: the saved w:pgSz / w:pgMar / w:docGrid carry the model's values.
